@@ -236,12 +236,14 @@ def run_md_one(kind, case, cfg):
         gen = E["ScriptedGen"](case["idx"], float(Fraction(case["xi"])))
         eng.order_function.conv = float
         eng.script([float(x) for x in case["back"]], [float(x) for x in case["forw"]], float(case["kick"]))
+        eng.keep_rev = not case.get("krf", False)
         if case["am"] is not None:
             tis_set["allowmaxlength"] = bool(case["am"])
         move = "sh"
     elif kind == "wf":
         gen = c09.WfGen(float(Fraction(case["xi"])), case["raws"])
         eng.script_wf([(j["kick"], j["back"], j["forw"]) for j in case["jumps"]], case["eb"], case["ef"])
+        eng.keep_rev = not case.get("krf", False)
         if case["nj"] is not None:
             tis_set["n_jumps"] = case["nj"]
         if case["cap"] is not None:
@@ -280,7 +282,8 @@ def run_md_one(kind, case, cfg):
                 f"{lst(ops)} | {wtxt}")
         after = c09.snapshot(old)
         info.update(status=st, live=live, replaced=live is not old, ops=ops, weights=w,
-                    frames_same=c09.frames_only(after) == c09.frames_only(before), md=md)
+                    frames_same=c09.frames_only(after) == c09.frames_only(before), md=md,
+                    frames=c09.frames_of(eng, live) if kind in ("sh", "wf") else None)
     except c09.BadDraw:
         line = "err:baddraw"
     except Exception as e:  # noqa: BLE001
@@ -392,6 +395,11 @@ def md_one_judge(kind, c, cfg, line, info):
     ops, w = info["ops"], info["weights"]
     l, m, r = c["intf"]
     sce = c09.sc_tuple(c["sce"])
+    if info.get("frames") is not None:
+        # "ordered in time" of the path the ensemble now holds (reversible toy dynamics of the scripted engine)
+        k = c09.time_ordered(info["frames"])
+        if k is not None:
+            bad.append(("C09:run_md:installed-path-not-ordered-in-time", f"{kind} ACC: " + c09.not_ordered_text(info["frames"], k)))
     if l <= m <= r and len(ops) >= 3:
         # membership of the path now held by the ensemble, start side taken from ens_set["start_cond"]
         first, last = ops[0], ops[-1]
